@@ -9,20 +9,21 @@
                        else store continuation k; unlock
    Every consumer must be delivered the result exactly once.
    Variant "flag_after_lock" sets predecessor_done after the barrier instead of before it.     *)
-EXTENDS Naturals, FiniteSets
+EXTENDS Integers, FiniteSets
 CONSTANTS Consumer, Variant
+\* lock: 0 free, -1 held by the completer, k held by consumer k
 VARIABLES done, lock, conts, cpc, kpc, delivered
 vars == <<done, lock, conts, cpc, kpc, delivered>>
-Init == done = FALSE /\ lock = "free" /\ conts = {} /\ cpc = "start"
+Init == done = FALSE /\ lock = 0 /\ conts = {} /\ cpc = "start"
         /\ kpc = [k \in Consumer |-> "start"] /\ delivered = [k \in Consumer |-> 0]
 \* completer
 CFlag == /\ cpc = (IF Variant = "flag_after_lock" THEN "barrier_done" ELSE "start")
          /\ done' = TRUE
          /\ cpc' = (IF Variant = "flag_after_lock" THEN "drain" ELSE "flagged")
          /\ UNCHANGED <<lock, conts, kpc, delivered>>
-CLock == /\ cpc = (IF Variant = "flag_after_lock" THEN "start" ELSE "flagged") /\ lock = "free"
-         /\ lock' = "completer" /\ cpc' = "locked" /\ UNCHANGED <<done, conts, kpc, delivered>>
-CUnlock == /\ cpc = "locked" /\ lock' = "free"
+CLock == /\ cpc = (IF Variant = "flag_after_lock" THEN "start" ELSE "flagged") /\ lock = 0
+         /\ lock' = -1 /\ cpc' = "locked" /\ UNCHANGED <<done, conts, kpc, delivered>>
+CUnlock == /\ cpc = "locked" /\ lock' = 0
            /\ cpc' = (IF Variant = "flag_after_lock" THEN "barrier_done" ELSE "drain")
            /\ UNCHANGED <<done, conts, kpc, delivered>>
 \* runs the continuations it sees (one atomic read of the vector, as in the code: no lock)
@@ -34,16 +35,16 @@ KFast(k) == /\ kpc[k] = "start"
             /\ IF done THEN delivered' = [delivered EXCEPT ![k] = @ + 1] /\ kpc' = [kpc EXCEPT ![k] = "finished"]
                        ELSE kpc' = [kpc EXCEPT ![k] = "tolock"] /\ UNCHANGED delivered
             /\ UNCHANGED <<done, lock, conts, cpc>>
-KLock(k) == /\ kpc[k] = "tolock" /\ lock = "free" /\ lock' = k /\ kpc' = [kpc EXCEPT ![k] = "locked"]
+KLock(k) == /\ kpc[k] = "tolock" /\ lock = 0 /\ lock' = k /\ kpc' = [kpc EXCEPT ![k] = "locked"]
             /\ UNCHANGED <<done, conts, cpc, delivered>>
 \* (the test of the flag and the store of the continuation are separate steps under the lock)
 KDecide(k) == /\ kpc[k] = "locked" /\ lock = k
-              /\ IF done THEN /\ delivered' = [delivered EXCEPT ![k] = @ + 1] /\ lock' = "free"
+              /\ IF done THEN /\ delivered' = [delivered EXCEPT ![k] = @ + 1] /\ lock' = 0
                               /\ kpc' = [kpc EXCEPT ![k] = "finished"]
                          ELSE kpc' = [kpc EXCEPT ![k] = "storing"] /\ UNCHANGED <<delivered, lock>>
               /\ UNCHANGED <<done, conts, cpc>>
 KStore(k) == /\ kpc[k] = "storing" /\ lock = k
-             /\ conts' = conts \cup {k} /\ lock' = "free" /\ kpc' = [kpc EXCEPT ![k] = "finished"]
+             /\ conts' = conts \cup {k} /\ lock' = 0 /\ kpc' = [kpc EXCEPT ![k] = "finished"]
              /\ UNCHANGED <<done, cpc, delivered>>
 Next == CFlag \/ CLock \/ CUnlock \/ CDrain \/ \E k \in Consumer : KFast(k) \/ KLock(k) \/ KDecide(k) \/ KStore(k)
 Spec == Init /\ [][Next]_vars /\ WF_vars(CFlag \/ CLock \/ CUnlock \/ CDrain)
